@@ -69,6 +69,7 @@ DTYPES = ["bool", "int16", "int32", "int64", "uint16", "uint32", "uint64", "floa
 SHAPES = [None, [3], [2, 3], [2, 2, 2]]
 FILLS = {(3,): [0, 3, 6], (2, 3): [0, 3], (2, 2, 2): [0, 1]}
 UNIT = "cm"
+ORIGINS = ["modsame", "modother", "modunit", "declared"]
 
 
 # ---------------------------------------------------------------------------------------------- alphabet
@@ -225,6 +226,31 @@ def base_params():
             add("str", [2, 3], _nest([pool[(off + i) % L] for i in range(6)], [2, 3]), None, fam + "-r2")
         for off in range(0, L, 8):
             add("str", [2, 2, 2], _nest([pool[(off + i) % L] for i in range(8)], [2, 2, 2]), None, fam + "-r3")
+    # how the parameter got its value: defined (everything above); defined then modified with the same value /
+    # another value / a value in another unit; declared first and assigned later.  Every dtype x width, scalar + [2,3].
+    for origin in ORIGINS:
+        for dtype in DTYPES:
+            c, w = _cls(dtype), _width(dtype)
+            if origin == "modunit" and c != "float":
+                # bool/str carry no unit; an *integer* node modified with a value in another unit holds a Python float
+                # in the environment (300.0 in an int16 node - conversion goes through float(); a C14 matter), so the
+                # statement gives no expected export for it: not demanded here
+                continue
+            pool = _pool(dtype)
+            if origin == "modunit":
+                # written in metres, stored in the centimetres of the definition (exact for these values)
+                scal = [3] if c != "float" else [1.5]
+                arrs = [[[1, 2, 3], [4, 5, 6]]] if c != "float" else [[[0.5, -1.5, 12.0], [3.0, 2.5, 7.0]]]
+            else:
+                scal = ([True] if c == "bool" else [IMAX[w]] if c == "sint" else [IMAX[w], UMAX[w]] if c == "uint"
+                        else [1e-7] if c == "float" else ["two words"])
+                arrs = [_nest([pool[(off + i) % len(pool)] for i in range(6)], [2, 3]) for off in ([0, 3] if c == "uint" else [3])]
+            for v in scal:
+                add(dtype, None, v, UNIT if origin == "modunit" else None, "origin-" + origin)
+                out[-1]["origin"] = origin
+            for v in arrs:
+                add(dtype, [2, 3], v, UNIT if origin == "modunit" else None, "origin-" + origin)
+                out[-1]["origin"] = origin
     for p in out:
         if p["shape"] and len(p["shape"]) >= 2:
             f = _flat(p["value"])
@@ -255,25 +281,53 @@ def named(p, kind):
     return q
 
 
+def _literal(s, v):
+    c = _cls(s["dtype"])
+    if v is None:
+        return "none"
+    if s["shape"] is None:
+        return ("true" if v else "false") if c == "bool" else ("'" + v + "'") if c == "str" else repr(v)
+    txt = json.dumps(v, separators=(",", ":"), ensure_ascii=False)
+    return "'" + txt + "'" if c == "str" else txt
+
+
+def _other_value(s):
+    """a value of the same type and shape that differs from the final one in every element"""
+    c = _cls(s["dtype"])
+
+    def other(x):
+        return (not x) if c == "bool" else (x + "!") if c == "str" else (1.25 if x != 1.25 else 2.5) if c == "float" \
+            else (4 if x != 4 else 6)
+    if s["shape"] is None:
+        return other(s["value"])
+    return _nest([other(x) for x in _flat(s["value"])], s["shape"])
+
+
 def dip_source(specs):
     lines = []
     for s in specs:
         dims = "" if s["shape"] is None else "[" + ",".join(str(x) for x in s["shape"]) + "]"
-        v, c = s["value"], _cls(s["dtype"])
-        if v is None:
-            txt = "none"
-        elif s.get("dip") is not None:
-            txt = s["dip"]
-        elif s["shape"] is None:
-            txt = ("true" if v else "false") if c == "bool" else ("'" + v + "'") if c == "str" else repr(v)
+        txt = s["dip"] if s.get("dip") is not None and s["value"] is not None else _literal(s, s["value"])
+        unit = (" " + s["unit"]) if s.get("unit") else ""
+        head = "%s %s%s" % (s["name"], s["dtype"], dims)
+        origin = s.get("origin")
+        if origin is None:
+            lines.append("%s = %s%s" % (head, txt, unit))
+        elif origin == "modsame":
+            lines.append("%s = %s%s" % (head, txt, unit))
+            lines.append("%s = %s%s" % (s["name"], txt, unit))
+        elif origin == "modother":
+            lines.append("%s = %s%s" % (head, _literal(s, _other_value(s)), unit))
+            lines.append("%s = %s%s" % (s["name"], txt, unit))
+        elif origin == "modunit":
+            # defined in the unit of the parameter, modified with a value written in metres
+            lines.append("%s = %s%s" % (head, _literal(s, _other_value(s)), unit))
+            lines.append("%s = %s m" % (s["name"], txt))
+        elif origin == "declared":
+            lines.append(head + unit)
+            lines.append("%s = %s%s" % (s["name"], txt, unit))
         else:
-            txt = json.dumps(v, separators=(",", ":"), ensure_ascii=False)
-            if c == "str":
-                txt = "'" + txt + "'"
-        line = "%s %s%s = %s" % (s["name"], s["dtype"], dims, txt)
-        if s.get("unit"):
-            line += " " + s["unit"]
-        lines.append(line)
+            raise HarnessError("unknown origin %r" % origin)
         if s.get("tags"):
             lines.append("  !tags " + json.dumps(s["tags"]))
     return "\n".join(lines) + "\n"
@@ -403,18 +457,22 @@ def _cleanup(root, d):
 
 
 # ---------------------------------------------------------------------------------------------- expected values
-def _expected(t):
-    from scinumtools.dip.datatypes import StringType, BooleanType, FloatType, IntegerType
-    if isinstance(t, BooleanType):
+def _expected(node):
+    """declared type / width / signedness of the *node* (keyword, precision, unsigned), value and unit of its value"""
+    kw = getattr(node, "keyword", None)
+    if kw == "bool":
         kind, width, signed = "bool", None, None
-    elif isinstance(t, IntegerType):
-        kind, width, signed = "int", int(t.precision), not t.unsigned
-    elif isinstance(t, FloatType):
-        kind, width, signed = "float", int(t.precision), None
-    elif isinstance(t, StringType):
+    elif kw == "int":
+        kind, width, signed = "int", int(node.precision), not node.unsigned
+    elif kw == "float":
+        kind, width, signed = "float", int(node.precision), None
+    elif kw == "str":
         kind, width, signed = "str", None, None
     else:
-        raise HarnessError("unexpected node value %r" % (t,))
+        raise HarnessError("unexpected node %r" % (node,))
+    t = node.value
+    if t is None:
+        raise HarnessError("node %s has no value" % node.name)
     v = t.value
     return dict(kind=kind, width=width, signed=signed, unit=getattr(t, "unit", None), shape=_shape(v),
                 flat=_flat(v) if v is not None else None, none=v is None)
@@ -606,6 +664,7 @@ def tags_of(backend, opt, spec, mode, sel=None):
     rank = 0 if spec["shape"] is None else len(spec["shape"])
     t = ["backend=" + backend, "opt=" + opt["id"], "mode=" + mode, "dtype=" + spec["dtype"], "class=" + c,
          "rank=%d" % rank, "name-seps=%d" % spec["name"].count(".")]
+    t.append("origin=" + (spec.get("origin") or "defined"))
     if rank >= 1:
         t.append("rank>=1")
     if rank >= 2:
@@ -702,9 +761,9 @@ def run_batch(backend, opt, specs, sel=None):
         if o[0] != "ok":
             return ("fail", "env", "%s: %s" % (o[1], o[2]))
         env = o[1]
-        o = outcome(env.data, Format.TYPE)
-        if o[0] != "ok":
-            return ("fail", "env", "%s: %s" % (o[1], o[2]))
+        o = outcome(env.data, Format.NODE)
+        if o[0] != "ok" or any(n.value is None for n in o[1].values()):
+            return ("fail", "env", "%s: %s" % (o[1], o[2]) if o[0] != "ok" else "node without value")
         types = o[1]
         chosen = select_model(specs, sel)
         plan = [(s, key, _mode(backend, opt, s)) for s, key in chosen]
@@ -761,7 +820,8 @@ def run_batch(backend, opt, specs, sel=None):
             extra = []
             if backend in ("bash", "json", "yaml", "toml", "dip"):
                 extra = sorted(set(obs) - set(it.name for it in items))
-        differs = sum(1 for s, _, _ in plan if exps[s["id"]]["flat"] != (_flat(s["value"]) if s["value"] is not None else None))
+        differs = sum(1 for s, _, _ in plan if s.get("origin") != "modunit" and
+                      exps[s["id"]]["flat"] != (_flat(s["value"]) if s["value"] is not None else None))
         info = dict(programs=nprog, compared=ncmp, extra=extra, twice_differs=text2 != text, symbols=len(items),
                     env_differs=differs)
         return ("ok", results, info)
@@ -874,7 +934,7 @@ def select_env():
 
     def first(dtype, rank, nth=0):
         c = [p for p in base if p["dtype"] == dtype and (0 if p["shape"] is None else len(p["shape"])) == rank
-             and p["value"] is not None and p["family"] != "quote"]
+             and p["value"] is not None and p["family"] != "quote" and not p.get("origin")]
         return c[nth % len(c)]
 
     layout = [("", "bool", 0, 0), ("", "int32", 0, 1), ("", "float64", 1, 0), ("", "str", 0, 0),
